@@ -96,8 +96,9 @@ class CliScenario:
                 return st.alloc("list", list(seq))
         if d == "enumerate" and args:
             seq = self.ri.interp.iterate(args[0], st)
-            if seq is not None:
-                return K(tuple(K((K(i), x)) for i, x in enumerate(seq)))
+            start_v = kwargs.get("start", args[1] if len(args) > 1 else K(0))
+            if seq is not None and isinstance(start_v, K) and isinstance(start_v.v, int):
+                return K(tuple(K((K(i), x)) for i, x in enumerate(seq, start_v.v)))
         return None
 
     def run(self, env: Dict[str, V]) -> State:
